@@ -687,7 +687,14 @@ class Interp(Engine):
             self.reentrant_call(func, depth)  # contract option recursion_limit_model=True: recursion whose depth no contract bounds may raise RecursionError
         if len(self.inline_stack) > 40:
             raise Unsupported(f"inline depth exceeded at {func.key}" + (" (recursion on data of symbolic size: the recursive function needs a modular contract with a measure)" if depth else ""))
+        followed = False
+        if c is None and cc is not None and cc.loops:
+            from . import follow
+
+            func, followed = follow.prepare_call(self, func)  # loop contracts follow a loop that moved into a contract-less helper
         fr = Frame(parent=func.frame, globs=func.globs, func=func)
+        if followed:
+            fr.follow_outer = self.cur_frame
         self.bind_params(func, args, kwargs, fr)
         self.inline_stack.append(func.key)
         saved = self.cur_frame
@@ -783,8 +790,8 @@ class Interp(Engine):
         it cannot write program variables.  A hook whose statement no longer exists never fires - the proof then fails
         as undecided (the carrier changed shape), it is never a silent pass."""
         c = self.cur_contract
-        if c is None or fr.func is None or fr.func.key != self.cur_key or self.spec_mode:
-            return
+        if c is None or fr.func is None or (fr.func.key != self.cur_key and getattr(fr, "follow_outer", None) is None) or self.spec_mode:
+            return  # (statements of a helper that loop contracts followed into, pyvc/follow.py, count as statements of the carrier)
         hooks = c.options.get("ghost_after")
         if not hooks or isinstance(s, (ast.For, ast.While, ast.If, ast.With, ast.Try, ast.FunctionDef, ast.Match)):
             return
@@ -795,6 +802,11 @@ class Interp(Engine):
                 fired = getattr(self, "_hooks_fired", None)
                 if fired is not None:
                     fired.add(want)
+                if getattr(fr, "follow_outer", None) is not None:
+                    from .loops import _visible
+
+                    fn(self, _visible(fr))
+                    continue
                 fn(self, self.visible_vars())
 
     def ex_Expr(self, s, fr):
